@@ -23,3 +23,21 @@ U("c01_my_strndup", ["C01"], "h_strndup", ["C01/attr.c"], ["writer.c"], plain=Tr
   bounds={"source length<=": 5, "unwind": 8}, cbmc_flags=["--unwind", "8", "--unwinding-assertions"],
   functions=["my_strndup (file-local)"], callees={"memcpy": "byte-loop model"}, native={"repo": "ALL", "exclude": ["writer.c"], "ldflags": ["-lm"]},
   assumptions=[NOFAIL])
+
+_AMBI_TYPES = ["STAR", "UL", "BACKTICK", "QUOTE_SINGLE", "QUOTE_DOUBLE", "DASH_N", "MATH_DOLLAR_SINGLE", "MATH_DOLLAR_DOUBLE", "SUPERSCRIPT", "SUBSCRIPT", "CRITIC_SUB_DIV"]
+for _n, _tier in ((4, "quick"), (6, "thorough")):
+  for _ty in _AMBI_TYPES:
+    if _ty in ("SUPERSCRIPT", "SUBSCRIPT"):
+        continue   # registered below with smaller bounds (tokens_prune/token_new paths are expensive)
+    U("c01_ambi_%s_N%d" % (_ty, _n), ["C01"], "h_ambi", ["C01/ambi.c"], ["mmd.c", "token.c", "char.c"], plain=True, lib=(), kind="bounded", tier=_tier,
+      defines=["-DDISABLE_OBJECT_POOL", "-DNSRC=%d" % _n, "-DTOKTYPE=" + _ty], bounds={"source bytes<=": _n, "tokens<=": 2, "unwind": _n + 3},
+      cbmc_flags=["--unwind", str(_n + 3), "--unwinding-assertions"], timeout=600, cost=30,
+      functions=["mmd_assign_ambidextrous_tokens_in_block"], callees={"char_is_*": "body (real table)", "token_new/tokens_prune": "body (DISABLE_OBJECT_POOL)"},
+      native={"repo": "ALL", "ldflags": ["-lm"]}, assumptions=[NOFAIL, "tokens lie inside the NUL-terminated source (lexer contract, assumed)"])
+for _n, _tier in ((5, "quick"), (7, "thorough")):
+  for _ty in ("SUPERSCRIPT", "SUBSCRIPT"):
+    U("c01_ambi_%s_N%d" % (_ty, _n), ["C01"], "h_ambi", ["C01/ambi.c"], ["mmd.c", "token.c", "char.c"], plain=True, lib=(), kind="bounded", tier=_tier,
+      defines=["-DDISABLE_OBJECT_POOL", "-DNSRC=%d" % _n, "-DTOKTYPE=" + _ty, "-DNO_NEXT"], bounds={"source bytes<=": _n, "tokens<=": 1, "unwind": _n + 3},
+      cbmc_flags=["--unwind", str(_n + 3), "--unwinding-assertions"], timeout=900, cost=60,
+      functions=["mmd_assign_ambidextrous_tokens_in_block"], callees={"char_is_*": "body (real table)", "token_new/tokens_prune": "body (DISABLE_OBJECT_POOL)"},
+      native={"repo": "ALL", "ldflags": ["-lm"]}, assumptions=[NOFAIL, "tokens lie inside the NUL-terminated source (lexer contract, assumed)"])
